@@ -9,6 +9,7 @@ package main
 import (
 	"bytes"
 	"compress/gzip"
+	"encoding/hex"
 	"encoding/json"
 	"flag"
 	"fmt"
@@ -354,6 +355,19 @@ func runRecv(param json.RawMessage, ctx *explore.Ctx, viols *[]xrun.Viol) string
 func main() {
 	flag.Parse()
 	par.ServeIfWorker(map[string]par.Handler{"t": runTask, "recv": xrun.Handler(runRecv)})
+	if v, ok := ev.ReplayRequested(); ok {
+		if strings.HasPrefix(v.Part, "receiver-placement") {
+			xrun.Replay(v, runRecv)
+		} else {
+			var hexBlob string
+			if v.ReplayField("blob_hex", &hexBlob) {
+				blob, _ := hex.DecodeString(hexBlob)
+				class, f := decodeAll(blob, len(blob))
+				fmt.Printf("  re-decoded the recorded blob (%d bytes): class=%s failure=%+v\n", len(blob), class, f)
+			}
+		}
+		return
+	}
 	r := ev.Start("C08")
 	defer r.RecoverMain()
 	defer world.Cleanup()
